@@ -147,16 +147,30 @@ enum Action {
 }
 
 fn union_pool() -> Vec<(String, Kind)> {
+    union_pool_with_members().into_iter().map(|(n, k, _)| (n, k)).collect()
+}
+
+/// Union operands together with some of their members ("a union contains every member of its operands").
+fn union_pool_with_members() -> Vec<(String, Kind, Vec<Value>)> {
+    use vv::{arr, i, obj, s};
     vec![
-        ("bytes".into(), Kind::bytes()),
-        ("null".into(), Kind::null()),
-        ("undefined".into(), Kind::undefined()),
-        ("array-any".into(), Kind::array(Collection::any())),
-        ("array<int>".into(), Kind::array(Collection::from_unknown(Kind::integer()))),
-        ("array[0:bytes]".into(), Kind::array(Collection::empty().with_known(0usize, Kind::bytes()))),
-        ("object{a:bytes}".into(), Kind::object(Collection::empty().with_known("a", Kind::bytes()))),
-        ("object<float>".into(), Kind::object(Collection::from_unknown(Kind::float()))),
-        ("object{a:{b:ts}}".into(), Kind::object(Collection::empty().with_known("a", Kind::object(Collection::empty().with_known("b", Kind::timestamp()))))),
+        ("bytes".into(), Kind::bytes(), vec![s("x")]),
+        ("null".into(), Kind::null(), vec![Value::Null]),
+        ("undefined".into(), Kind::undefined(), vec![]),
+        ("array-any".into(), Kind::array(Collection::any()), vec![arr(&[]), arr(&[i(1), s("x")])]),
+        ("array<int>".into(), Kind::array(Collection::from_unknown(Kind::integer())), vec![arr(&[]), arr(&[i(1), i(2)])]),
+        ("array[0:bytes]".into(), Kind::array(Collection::empty().with_known(0usize, Kind::bytes())), vec![arr(&[s("x")])]),
+        ("object{a:bytes}".into(), Kind::object(Collection::empty().with_known("a", Kind::bytes())), vec![obj(&[("a", s("x"))])]),
+        ("object<float>".into(), Kind::object(Collection::from_unknown(Kind::float())), vec![obj(&[]), obj(&[("z", vv::f(1.5))])]),
+        (
+            "object{a:{b:ts}}".into(),
+            Kind::object(Collection::empty().with_known("a", Kind::object(Collection::empty().with_known("b", Kind::timestamp())))),
+            vec![obj(&[("a", obj(&[("b", vv::ts("2021-02-03T04:05:06Z"))]))])],
+        ),
+        // closed empty collections: their only member has NO fields / elements at all
+        ("object{}".into(), Kind::object(Collection::empty()), vec![obj(&[])]),
+        ("array[]".into(), Kind::array(Collection::empty()), vec![arr(&[])]),
+        ("object{a:bytes?}".into(), Kind::object(Collection::empty().with_known("a", Kind::bytes().or_undefined())), vec![obj(&[]), obj(&[("a", s("x"))])]),
     ]
 }
 
@@ -359,6 +373,17 @@ pub fn step(st: &St, a: &Action, acc: &mut Acc) -> Option<St> {
                 }
             };
             acc.classes.insert("union".into());
+            // every enumerated member of the OPERAND must be a member of the union as well
+            if let Some((_, _, members)) = union_pool_with_members().into_iter().find(|(x, _, _)| x == n) {
+                for m in &members {
+                    for (side, u) in [("K∪K2", &u1), ("K2∪K", &u2)] {
+                        if let Some(why) = why_not(m, u) {
+                            acc.violations.push(Violation::new("C19.union-contains-operand-member", w(), format!("member {} of the operand ∈ {side} = {u}", vv::show(m)), why));
+                            return None;
+                        }
+                    }
+                }
+            }
             for (side, u) in [("K∪K2", &u1), ("K2∪K", &u2)] {
                 if let Some(why) = why_not(&st.v, u) {
                     acc.violations.push(Violation::new("C19.union", w(), format!("{} ∈ {side} = {u}", vv::show(&st.v)), why));
